@@ -92,7 +92,7 @@ def afterHandshake (p : Params) (cfg : Int) : State :=
 
 /-- the common part after a successful `decrypt`: old epoch ⇒ drop; newer epoch ⇒ switch and
 start a new window; then `replayWindow.check` -/
-def admit (p : Params) (st : State) (r : Rec) : State × Bool :=
+def admitRec (p : Params) (st : State) (r : Rec) : State × Bool :=
   if r.epoch < st.readEpoch then (st, false)
   else
     let st1 : State :=
@@ -105,7 +105,7 @@ def readFrom (p : Params) (st : State) : Dgram → State × Out
   | .record r =>
     if !r.auth then (st, .timeout)          -- `if err != nil { continue }`
     else
-      let (st1, ok) := admit p st r
+      let (st1, ok) := admitRec p st r
       if !ok then (st1, .timeout)
       else match r.kind with
         | .appData => (st1, .data r.payload)
@@ -129,7 +129,7 @@ def read (p : Params) (q : RxParams) (st : State) (d : Dgram) : State × Out :=
     | .record r =>
       if !r.auth then invalid q.dropForged
       else
-        let (st1, ok) := admit p st r
+        let (st1, ok) := admitRec p st r
         if !ok then (st1, .timeout)
         else match r.kind with
           | .appData => (st1, .data r.payload)
